@@ -141,6 +141,7 @@ func cmdCheck(args []string) {
 	var limits []string
 	var allObls []*Obligation
 	assumptions := map[string]bool{}
+	pubReq := map[string][]string{}
 	for len(todo) > 0 {
 		u := todo[0]
 		todo = todo[1:]
@@ -161,6 +162,12 @@ func cmdCheck(args []string) {
 			continue
 		}
 		results = append(results, res)
+		if u.Public {
+			// what a public entry point requires is an assumption about its callers: nothing checks it
+			for _, c := range u.Requires {
+				pubReq[c.Text] = append(pubReq[c.Text], u.Name)
+			}
+		}
 		for _, l := range res.Limits {
 			limits = append(limits, u.Name+": "+l)
 		}
@@ -330,6 +337,15 @@ func cmdCheck(args []string) {
 	}
 	for _, a := range assumedUnits {
 		asm = append(asm, "assumed contract (body not verified): "+a)
+	}
+	for _, t := range sortedKeys2(pubReq) {
+		names := pubReq[t]
+		sort.Strings(names)
+		who := strings.Join(names, ", ")
+		if len(names) > 4 {
+			who = strings.Join(names[:4], ", ") + fmt.Sprintf(", ... (%d public entry points)", len(names))
+		}
+		asm = append(asm, "unchecked precondition of public entry points ("+who+"): "+t)
 	}
 	for _, l := range ps.PaperLemmas {
 		asm = append(asm, "paper lemma: "+l)
@@ -565,4 +581,13 @@ func prepareRacModule(vd, repo string) (string, error) {
 		os.WriteFile(filepath.Join(dir, "go.sum"), b, 0o644)
 	}
 	return dir, nil
+}
+
+func sortedKeys2(m map[string][]string) []string {
+	var ks []string
+	for k := range m {
+		ks = append(ks, k)
+	}
+	sort.Strings(ks)
+	return ks
 }
